@@ -76,7 +76,7 @@ Qed.
 
 Lemma multiply_lo a b : u64 a -> u64 b -> u64 (u128_lo (Multiply a b)).
 Proof.
-  intros Ha Hb. unfold u64 at 3. multiply_prep a b Ha Hb.
+  intros Ha Hb. change (0 <= u128_lo (Multiply a b) < 2 ^ 64). multiply_prep a b Ha Hb.
   Z.div_mod_to_equations; lia.
 Qed.
 
